@@ -417,10 +417,16 @@ theorem loop_inv (H : Http) (fs : List FieldLine) :
     simp only [tryFromLoop] at hl
     split at hl
     · rename_i f hf
-      have := ih (pre ++ [(n, v)]) (h0.add f) h (inv_step hi (parse_ok hf)) hl
-      simpa using this
+      split at hl
+      · unfold mapFull at hl; split at hl <;> cases hl
+      · have := ih (pre ++ [(n, v)]) (h0.add f) h (inv_step hi (parse_ok hf)) hl
+        simpa using this
     · cases hl
     · cases hl
+
+theorem mapFull_ne_panic : mapFull ≠ .panic := by
+  have hm : H3.Gen.Headers.mapFallible = true := rfl
+  simp [mapFull, hm]
 
 theorem loop_ne_panic (H : Http) (fs : List FieldLine) : ∀ h0, tryFromLoop H h0 fs ≠ .panic := by
   induction fs with
@@ -430,25 +436,122 @@ theorem loop_ne_panic (H : Http) (fs : List FieldLine) : ∀ h0, tryFromLoop H h
     obtain ⟨n, v⟩ := g
     simp only [tryFromLoop]
     split
-    · exact ih _
+    · split
+      · exact mapFull_ne_panic
+      · exact ih _
     · simp
     · rename_i hp; exact absurd hp (parse_ne_panic H n v)
 
-/-- `Header::try_from` succeeded: the list is short enough and the invariant holds. -/
+/-- the decision of the D-01 fix: a map that cannot be pre-sized does not end the conversion.
+    Needs `H3.Gen.Headers.mapPresizeRefuses = false`: the proof evaluates the generated constant. -/
+theorem tryFrom_eq_loop (H : Http) (fs : List FieldLine) : tryFrom H fs = tryFromLoop H {} fs := by
+  have hp : H3.Gen.Headers.mapPresizeRefuses = false := rfl
+  simp [tryFrom, hp]
+
+/-- `Header::try_from` succeeded: the invariant holds. -/
 theorem tryFrom_ok {H : Http} {fs : List FieldLine} {h : Header} (e : tryFrom H fs = .ok h) : Inv H fs h := by
-  unfold tryFrom at e
-  split at e
-  · split at e <;> cases e
-  · simpa using loop_inv H fs [] {} h (inv_nil H) e
+  rw [tryFrom_eq_loop] at e
+  simpa using loop_inv H fs [] {} h (inv_nil H) e
 
 /-- needs `H3.Gen.Headers.mapFallible = true` (the fallible `HeaderMap` constructors): the proof
     evaluates the generated constant. -/
 theorem tryFrom_ne_panic (H : Http) (fs : List FieldLine) : tryFrom H fs ≠ .panic := by
-  unfold tryFrom
-  split
-  · have hm : H3.Gen.Headers.mapFallible = true := rfl
-    simp [hm]
-  · exact loop_ne_panic H fs _
+  rw [tryFrom_eq_loop]
+  exact loop_ne_panic H fs _
+
+/-! ### the capacity of the map -/
+
+theorem hmAppend_length_le (m : HeaderMap) (n v : Bytes) : (hmAppend m n v).length ≤ m.length + 1 := by
+  have := congrArg List.length (hmAppend_keys m n v)
+  simp only [List.length_map] at this
+  rw [this]
+  split <;> simp
+
+theorem add_length_le (h : Header) (f : Field) (hc : h.fields.length ≤ hmMaxEntries)
+    (hf : h.full f = false) : (h.add f).fields.length ≤ hmMaxEntries := by
+  cases f with
+  | header n v =>
+    simp only [Header.full, decide_eq_false_iff_not] at hf
+    have := hmAppend_length_le h.fields n v
+    simp only [Header.add]
+    omega
+  | method _ | scheme _ | authority _ | path _ | status _ | protocol _ => exact hc
+
+/-- a map `try_from` hands over holds at most `hmMaxEntries` names -/
+theorem loop_cap (H : Http) (fs : List FieldLine) : ∀ (h0 h : Header),
+    h0.fields.length ≤ hmMaxEntries → tryFromLoop H h0 fs = .ok h → h.fields.length ≤ hmMaxEntries := by
+  induction fs with
+  | nil => intro h0 h hc hl; simp only [tryFromLoop] at hl; cases hl; exact hc
+  | cons g r ih =>
+    intro h0 h hc hl
+    obtain ⟨n, v⟩ := g
+    simp only [tryFromLoop] at hl
+    split at hl
+    · rename_i f hf
+      split at hl
+      · unfold mapFull at hl; split at hl <;> cases hl
+      · rename_i hfull
+        exact ih _ h (add_length_le h0 f hc (by simpa using hfull)) hl
+    · cases hl
+    · cases hl
+
+theorem tryFrom_cap {H : Http} {fs : List FieldLine} {h : Header} (e : tryFrom H fs = .ok h) :
+    h.fields.length ≤ hmMaxEntries := by
+  rw [tryFrom_eq_loop] at e
+  exact loop_cap H fs {} h (by simp) e
+
+theorem nodup_subset_length {α : Type} [DecidableEq α] : ∀ (ns ks : List α), ns.Nodup →
+    (∀ n ∈ ns, n ∈ ks) → ns.length ≤ ks.length := by
+  intro ns
+  induction ns with
+  | nil => intro ks _ _; simp
+  | cons n r ih =>
+    intro ks hnd hsub
+    have hn : n ∈ ks := hsub n (by simp)
+    have hnd' := List.nodup_cons.mp hnd
+    have hr : ∀ x ∈ r, x ∈ ks.erase n := by
+      intro x hx
+      have hne : x ≠ n := fun e => hnd'.1 (e ▸ hx)
+      exact (List.mem_erase_of_ne hne).mpr (hsub x (by simp [hx]))
+    have := ih (ks.erase n) hnd'.2 hr
+    rw [List.length_erase_of_mem hn] at this
+    have hpos : 0 < ks.length := List.length_pos_of_mem hn
+    simp only [List.length_cons]
+    omega
+
+/-- every regular name of the list is a name of the map handed over -/
+theorem inv_names {H : Http} {fs : List FieldLine} {h : Header} (hi : Inv H fs h) (n v : Bytes)
+    (hmem : (n, v) ∈ fs) (hn : ¬ IsPseudo n) : n ∈ h.fields.map (·.1) := by
+  apply Classical.byContradiction
+  intro hnot
+  have hg := hi.group n
+  rw [hmGroup_nil_of_not_mem _ _ hnot] at hg
+  have : v ∈ valuesOf n (regular fs) := by
+    rw [mem_valuesOf]
+    unfold regular
+    simp only [List.mem_filter, decide_eq_true_eq]
+    exact ⟨hmem, hn⟩
+  rw [← hg] at this
+  cases this
+
+/-- more than `hmMaxEntries` distinct regular names: `try_from` does not succeed -/
+theorem tryFrom_too_many_names {H : Http} {fs : List FieldLine} (ns : List Bytes) (hnd : ns.Nodup)
+    (hlen : hmMaxEntries < ns.length) (hocc : ∀ n ∈ ns, ¬ IsPseudo n ∧ ∃ v, (n, v) ∈ fs) :
+    ∃ e, tryFrom H fs = .err e := by
+  cases e : tryFrom H fs with
+  | err x => exact ⟨x, rfl⟩
+  | panic => exact absurd e (tryFrom_ne_panic H fs)
+  | ok h =>
+    exfalso
+    have hi := tryFrom_ok e
+    have hc := tryFrom_cap e
+    have hsub : ∀ n ∈ ns, n ∈ h.fields.map (·.1) := by
+      intro n hn
+      obtain ⟨hp, v, hv⟩ := hocc n hn
+      exact inv_names hi n v hv hp
+    have := nodup_subset_length ns _ hnd hsub
+    simp only [List.length_map] at this
+    omega
 
 /-! ### `HeaderIter` -/
 
